@@ -34,6 +34,7 @@ import (
 )
 
 const (
+	xwInvalidContent = 9 // spec.content value the simulated API server rejects as invalid
 	xwGroup      = "example.org"
 	xwXRName     = "xr"
 	xwForeignUID = "foreign-uid"
@@ -75,6 +76,9 @@ type xwFault struct {
 }
 
 type xwRound struct {
+	// Ver is the API version every desired resource is emitted with in this round ("" = v1).
+	// The kind of a resource name is fixed, its version may change between reconciles.
+	Ver     string      `json:"ver,omitempty"`
 	Desired []xwDesired `json:"desired"`
 	FnErr   string      `json:"fnErr"` // "" | "error" | "fatal" (pipeline failure, C03)
 	Fault   *xwFault    `json:"fault"`
@@ -136,6 +140,14 @@ func (w *xwWorld) mon(sig, why string) {
 
 func xwNewWorld(s xwScn) *xwWorld {
 	st := NewStore(runtime.NewScheme())
+	// the API server rejects (422 Invalid) composed resources whose spec.content is xwInvalidContent
+	st.Reject = func(m map[string]any) bool {
+		if k, _ := m["kind"].(string); k != "KA" && k != "KB" {
+			return false
+		}
+		c, _, _ := unstructured.NestedInt64(m, "spec", "content")
+		return c == xwInvalidContent
+	}
 	w := &xwWorld{St: st, seen: map[string]bool{}, prevName: map[string]string{}}
 	xr := ucomposite.New(ucomposite.WithGroupVersionKind(xwXRGVK))
 	xr.SetName(xwXRName)
@@ -313,13 +325,20 @@ func xwOutcome(s string) Outcome {
 }
 
 // xwPTRevision builds a resources-mode revision with one named template per desired entry.
-func xwPTRevision(ds []xwDesired) *v1.CompositionRevision {
+func xwVer(v string) string {
+	if v == "" {
+		return "v1"
+	}
+	return v
+}
+
+func xwPTRevision(ds []xwDesired, ver string) *v1.CompositionRevision {
 	rev := &v1.CompositionRevision{}
 	mode := v1.CompositionModeResources
 	rev.Spec.Mode = &mode
 	for _, d := range ds {
 		name := d.RName
-		base := map[string]any{"apiVersion": xwGroup + "/v1", "kind": d.Kind, "spec": map[string]any{"content": d.Content}}
+		base := map[string]any{"apiVersion": xwGroup + "/" + xwVer(ver), "kind": d.Kind, "spec": map[string]any{"content": d.Content}}
 		raw, _ := json.Marshal(base)
 		t := v1.ComposedTemplate{Name: &name, Base: runtime.RawExtension{Raw: raw}}
 		if !d.Ready {
@@ -360,7 +379,7 @@ func (w *xwWorld) xwRunRound(mode string, rd *xwRound, extraCheck func()) xwRoun
 		}
 		rsp := &fnv1.RunFunctionResponse{Desired: &fnv1.State{Resources: map[string]*fnv1.Resource{}}}
 		for _, d := range rd.Desired {
-			s, _ := structpb.NewStruct(map[string]any{"apiVersion": xwGroup + "/v1", "kind": d.Kind, "spec": map[string]any{"content": d.Content}})
+			s, _ := structpb.NewStruct(map[string]any{"apiVersion": xwGroup + "/" + xwVer(rd.Ver), "kind": d.Kind, "spec": map[string]any{"content": d.Content}})
 			rdy := fnv1.Ready_READY_FALSE
 			if d.Ready {
 				rdy = fnv1.Ready_READY_TRUE
@@ -385,7 +404,7 @@ func (w *xwWorld) xwRunRound(mode string, rd *xwRound, extraCheck func()) xwRoun
 		composite.VerifWrapFnNameGenerator(fc, wrap)
 		composer = fc
 	} else {
-		rev = xwPTRevision(rd.Desired)
+		rev = xwPTRevision(rd.Desired, rd.Ver)
 		pc := composite.NewPTComposer(st, st)
 		composite.VerifWrapPTNameGenerator(pc, wrap)
 		composer = pc
@@ -515,6 +534,13 @@ func (w *xwWorld) xwRunRound(mode string, rd *xwRound, extraCheck func()) xwRoun
 		obs.Result = "success"
 	default:
 		obs.Result = "handled"
+	}
+	if obs.Result == "success" {
+		for _, d := range rd.Desired {
+			if d.Content == xwInvalidContent {
+				w.mon("C05:synced-despite-rejected-apply", fmt.Sprintf("XR reported Synced=True although the apply of desired resource %q was rejected as invalid in this reconcile", d.RName))
+			}
+		}
 	}
 	return obs
 }
